@@ -134,41 +134,49 @@ def powHigh0 (base e prec : Nat) : Nat × Nat := if e = 0 then (1, 0) else powHi
 
 /-! ## mpf_set_str: the conversion -/
 
-/-- set_str.c:314-463 for an accepted string; `prec` = PREC(x) -/
-def convert (prec : Nat) (p : Parsed) : Mpf.F :=
+/-- set_str.c:344-351 and 383-390: exponent of the base is 0 — the (truncated) integer mantissa itself -/
+def convInt (prec : Nat) (neg : Bool) (M : Nat) : Mpf.F :=
+  let km := keepTop (prec + 1) M                                                 -- :344-351
+  let mn := limbLen km.1
+  Mpf.mk prec neg ((mn : Int) + (km.2 : Int)) (toLimbs mn km.1)                  -- :385-387
+
+/-- set_str.c:395, 440-461: mantissa times base^e (e ≥ 1) -/
+def convMul (prec : Nat) (neg : Bool) (M b e : Nat) : Mpf.F :=
   let P := prec + 1                                                              -- :314
-  let M := p.mant                                                                -- :332-334 mpn_set_str, MPN_NORMALIZE
-  if M = 0 then Mpf.zero prec else                                               -- :336-342
+  let km := keepTop P M                                                          -- :344-351
+  let pw := powHigh b e P                                                        -- :395
+  let t := pw.1 * km.1                                                           -- :442-446
+  let tn := limbLen t                                                            -- :447-448
+  let kt := keepTop P t                                                          -- :451-456
+  Mpf.mk prec neg ((tn : Int) + (km.2 : Int) + (pw.2 : Int)) (toLimbs (min tn P) kt.1)   -- :449, 459-461
+
+/-- set_str.c:395-437, 459-461: mantissa divided by base^e (e ≥ 1) -/
+def convDiv (prec : Nat) (neg : Bool) (M b e : Nat) : Mpf.F :=
+  let P := prec + 1                                                              -- :314
   let km := keepTop P M                                                          -- :344-351
   let m := km.1
-  let madj : Int := km.2
   let mn := limbLen m
-  let E := p.scale                                                               -- :378-379
-  let e := E.natAbs                                                              -- :381
-  if e = 0 then Mpf.mk prec p.neg (mn + madj) (toLimbs mn m)                     -- :383-390
-  else
-    let pw := powHigh p.base e P                                                 -- :395
-    let r := pw.1
-    let radj : Int := pw.2
-    let rn := limbLen r
-    if E < 0 then                                                                -- :397
-      let pad := rn - mn                                                         -- :405-414 (0 unless mn < rn)
-      let m1 := m * B ^ pad
-      let madj1 : Int := madj - pad
-      let cnt := 64 * rn - 1 - r.log2                                            -- :415-424 normalise the divisor
-      let r2 := r * 2 ^ cnt
-      let m2 := m1 * 2 ^ cnt
-      let mn2 := limbLen m2
-      let qxn := P - (mn2 - rn)                                                  -- :427
-      let Q := m2 * B ^ qxn / r2                                                 -- mpn_intdivrem: P limbs and qlimb
-      let qlimb := Q / B ^ P
-      let ex : Int := (qlimb : Int) + ((mn2 - rn : Nat) : Int) + (madj1 - radj)  -- :429
-      Mpf.mk prec p.neg ex (toLimbs P (if qlimb ≠ 0 then Q / B else Q))          -- :430-437, 459-461
-    else
-      let t := r * m                                                             -- :442-446
-      let tn := limbLen t                                                        -- :447-448
-      let kt := keepTop P t                                                      -- :451-456
-      Mpf.mk prec p.neg ((tn : Int) + madj + radj) (toLimbs (min tn P) kt.1)     -- :449, 459-461
+  let pw := powHigh b e P                                                        -- :395
+  let r := pw.1
+  let rn := limbLen r
+  let pad := rn - mn                                                             -- :405-414 (0 unless mn < rn)
+  let m1 := m * B ^ pad
+  let cnt := 64 * rn - 1 - r.log2                                                -- :415-424 normalise the divisor
+  let r2 := r * 2 ^ cnt
+  let m2 := m1 * 2 ^ cnt
+  let mn2 := limbLen m2
+  let qxn := P - (mn2 - rn)                                                      -- :427
+  let Q := m2 * B ^ qxn / r2                                                     -- mpn_intdivrem: P limbs and qlimb
+  let qlimb := Q / B ^ P
+  let ex : Int := (qlimb : Int) + ((mn2 - rn : Nat) : Int) + ((km.2 : Int) - (pad : Int) - (pw.2 : Int))   -- :412, 429
+  Mpf.mk prec neg ex (toLimbs P (if qlimb ≠ 0 then Q / B else Q))                -- :430-437, 459-461
+
+/-- set_str.c:314-463 for an accepted string; `prec` = PREC(x) -/
+def convert (prec : Nat) (p : Parsed) : Mpf.F :=
+  if p.mant = 0 then Mpf.zero prec                                               -- :332-342 mpn_set_str, MPN_NORMALIZE, mn == 0
+  else if p.scale.natAbs = 0 then convInt prec p.neg p.mant                      -- :378-390
+  else if p.scale < 0 then convDiv prec p.neg p.mant p.base p.scale.natAbs       -- :380, 397
+  else convMul prec p.neg p.mant p.base p.scale.natAbs
 
 /-- mpf_set_str (x, s, base): return value and the new content of x (`dst` = old content) -/
 def set_str (prec : Nat) (dst : Mpf.F) (base : Int) (s : List Nat) : Int × Mpf.F :=
@@ -203,15 +211,15 @@ def divTrunc (n : Nat) (bits : Nat) : Nat :=
 /-- MPF_SIGNIFICANT_DIGITS (gmp-impl.h:3963): `2 + (size_t) (((size_t) prec - 1) * 64 * chars_per_bit_exactly)` -/
 def maxDigits (base prec : Nat) : Nat := 2 + Radix.mulTrunc ((prec - 1) * 64) (Radix.cpbeBits base)
 
-/-- get_str.c:177 -/
-def nLimbsNeeded (base nd : Nat) : Nat := 2 + divTrunc nd (Radix.cpbeBits base) / 64
+/-- get_str.c:180 -/
+def nLimbsNeeded (base nd : Nat) : Nat := 3 + divTrunc nd (Radix.cpbeBits base) / 64
 
 /-- the digit count mpf_get_str works to (get_str.c:149-151) -/
 def effDigits (base prec nd : Nat) : Nat :=
   let m := maxDigits base prec
   if nd = 0 ∨ nd > m then m else nd
 
-/-- get_str.c:256-277: add one unit to the last kept digit; digits that become `base` are cut off
+/-- get_str.c:259-280: add one unit to the last kept digit; digits that become `base` are cut off
     (`n_digits_computed--`), a carry out of the first digit gives `1` and exponent + 1 -/
 def roundUp (base : Nat) (ds : List Nat) (x : Int) : List Nat × Int :=
   match ds.reverse.dropWhile (fun d => d + 1 == base) with
@@ -220,7 +228,7 @@ def roundUp (base : Nat) (ds : List Nat) (x : Int) : List Nat × Int :=
 
 def stripTrailingZeros (ds : List Nat) : List Nat := (ds.reverse.dropWhile (· == 0)).reverse
 
-/-- get_str.c:250-288 on the computed digits `ds` (more than requested, normally) with exponent `x` -/
+/-- get_str.c:253-291 on the computed digits `ds` (more than requested, normally) with exponent `x` -/
 def finish (base nd : Nat) (ds : List Nat) (x : Int) : List Nat × Int :=
   let r := if ds.length > nd ∧ 2 * ds.getD nd 0 ≥ base then roundUp base (ds.take nd) x else (ds.take nd, x)
   (stripTrailingZeros r.1, r.2)
@@ -229,32 +237,32 @@ def finish (base nd : Nat) (ds : List Nat) (x : Int) : List Nat × Int :=
 def get_digits (base nd0 : Nat) (u : Mpf.F) : List Nat × Int :=
   let nd := effDigits base u.prec nd0                                            -- :149-151
   if u.d.length = 0 then ([], 0) else                                            -- :161-167
-  let nln := nLimbsNeeded base nd                                                -- :177
-  let up := Mpf.top nln u.d                                                      -- :188-192 / :225-229
+  let nln := nLimbsNeeded base nd                                                -- :180
+  let up := Mpf.top nln u.d                                                      -- :191-195 / :228-232
   let un := up.length
   let cb := Radix.cpbeBits base
   if u.exp ≤ (nln : Int) then
-    let more := ((nln : Int) - u.exp).toNat                                      -- :185
-    let e := Radix.mulTrunc (64 * more) cb                                       -- :186
-    let pw := powHigh0 base e nln                                                -- :196
-    let t := val up * pw.1                                                       -- :197-202
-    let off : Int := (un : Int) - u.exp - (pw.2 : Int)                           -- :203
-    let N := if off < 0 then t * B ^ (-off).toNat else t / B ^ off.toNat         -- :204-211
+    let more := ((nln : Int) - u.exp).toNat                                      -- :188
+    let e := Radix.mulTrunc (64 * more) cb                                       -- :189
+    let pw := powHigh0 base e nln                                                -- :199
+    let t := val up * pw.1                                                       -- :200-205
+    let off : Int := (un : Int) - u.exp - (pw.2 : Int)                           -- :206
+    let N := if off < 0 then t * B ^ (-off).toNat else t / B ^ off.toNat         -- :207-214
     let ds := Radix.digitsOf base N
-    finish base nd ds ((ds.length : Int) - (e : Int))                            -- :213
+    finish base nd ds ((ds.length : Int) - (e : Int))                            -- :216
   else
-    let less := (u.exp - (nln : Int)).toNat                                      -- :222
-    let e := Radix.mulTrunc (64 * less) cb                                       -- :223
-    let pw := powHigh0 base e nln                                                -- :233
-    let xn := nln + (less - pw.2)                                                -- :235
-    let x := val up * B ^ (xn - un)                                              -- :236-239
-    let ds := Radix.digitsOf base (x / pw.1)                                     -- :242-245
-    finish base nd ds ((ds.length : Int) + (e : Int))                            -- :247
+    let less := (u.exp - (nln : Int)).toNat                                      -- :225
+    let e := Radix.mulTrunc (64 * less) cb                                       -- :226
+    let pw := powHigh0 base e nln                                                -- :236
+    let xn := nln + (less - pw.2)                                                -- :238
+    let x := val up * B ^ (xn - un)                                              -- :239-242
+    let ds := Radix.digitsOf base (x / pw.1)                                     -- :245-248
+    finish base nd ds ((ds.length : Int) + (e : Int))                            -- :250
 
 /-- the returned string and exponent; `base` in 2..62 or -36..-2 -/
 def get_str (base : Int) (nd0 : Nat) (u : Mpf.F) : List Nat × Int :=
   let r := get_digits base.natAbs nd0 u
-  ((if u.size < 0 then [45] else []) ++ r.1.map (Radix.digitChar base), r.2)     -- :290-303
+  ((if u.size < 0 then [45] else []) ++ r.1.map (Radix.digitChar base), r.2)     -- :293-306
 
 /-- decimal text of an integer -/
 def decimal (z : Int) : List Nat :=
